@@ -492,17 +492,17 @@ func runZero(c rndCase, smp sampler) []rndFinding {
 	return nil
 }
 
-func judgeRnd(c rndCase, expired func() bool) (fs []rndFinding, runs int64, info string) {
+func judgeRnd(c rndCase, expired func() bool) (fs []rndFinding, runs int64, leaves int64, info string) {
 	smp := samplerFor(c.Via)
 	switch c.Mode {
 	case "tree":
 		tr := runTree(c, smp, expired)
-		return tr.findings, tr.runs, fmt.Sprintf("leaves=%d inner=%d undecided-nodes=%d decided-mass=%.4f depth<=%d", tr.leaves, tr.inner, tr.undecidedParts, tr.decidedMass, tr.maxDepth)
+		return tr.findings, tr.runs, tr.leaves, fmt.Sprintf("leaves=%d inner=%d undecided-nodes=%d decided-mass=%.4f depth<=%d", tr.leaves, tr.inner, tr.undecidedParts, tr.decidedMass, tr.maxDepth)
 	case "block":
 		br := runBlock(c, smp)
-		return br.findings, br.runs, fmt.Sprintf("leaves=%d undecided=%d", br.leaves, br.undecided)
+		return br.findings, br.runs, br.leaves, fmt.Sprintf("leaves=%d undecided=%d", br.leaves, br.undecided)
 	case "zero":
-		return runZero(c, smp), 1, ""
+		return runZero(c, smp), 1, 0, ""
 	}
 	panic(c.Mode)
 }
@@ -562,7 +562,6 @@ func largeModuli(t *num.Type) []*big.Int {
 }
 
 func runC47(env *mc.Env) {
-	defer stopProf()
 	var cases []rndCase
 	thorough := env.Thorough()
 	for _, name := range c47Types {
@@ -581,9 +580,16 @@ func runC47(env *mc.Env) {
 		case 16:
 			ms := smallModuli(t, mc.Pick(env, 8, 0))
 			if thorough {
-				ms = nil
-				for m := int64(1); m <= 65535; m++ {
-					ms = append(ms, big.NewInt(m))
+				// every modulus up to 4096 in addition to the lattice
+				ms = smallModuli(t, 0)
+				have := map[string]bool{}
+				for _, m := range ms {
+					have[m.String()] = true
+				}
+				for m := int64(1); m <= 4096; m++ {
+					if !have[fmt.Sprint(m)] {
+						ms = append(ms, big.NewInt(m))
+					}
 				}
 			}
 			lattice := map[string]bool{}
@@ -652,8 +658,9 @@ func runC47(env *mc.Env) {
 	// heavier cases first
 	mc.ParallelFor(env, len(cases), func(i int) {
 		c := cases[i]
-		fs, runs, info := judgeRnd(c, env.Expired)
+		fs, runs, leaves, info := judgeRnd(c, env.Expired)
 		env.R.EvalN(runs)
+		env.R.Add("leaves_judged_"+c.Mode, leaves)
 		m := c.modulo()
 		for _, f := range fs {
 			if len(f.kind) > 8 && f.kind[:8] == "harness:" {
@@ -692,7 +699,7 @@ func replayC47(env *mc.Env, raw json.RawMessage) (bool, string) {
 	if err := json.Unmarshal(raw, &c); err != nil {
 		return false, err.Error()
 	}
-	fs, runs, info := judgeRnd(c, func() bool { return false })
+	fs, runs, _, info := judgeRnd(c, func() bool { return false })
 	if len(fs) == 0 {
 		return false, fmt.Sprintf("%+v: no finding in %d runs (%s)", c, runs, info)
 	}
@@ -702,7 +709,7 @@ func replayC47(env *mc.Env, raw json.RawMessage) (bool, string) {
 func init() {
 	mc.Register(&mc.Check{
 		ID:   "C47",
-		Rule: "explicit enumeration of the draw tree of the real revertibleRandom (stdlib.RevertibleRandom called with a byte source that holds exactly the bytes of one tree node; a node that asks for n more bytes is expanded into its 256^n children), exact integer masses. 8-bit types: all 255 moduli and no modulo, complete to 2 bytes (3 thorough). 16-bit: lattice moduli + consecutive ones (all 65535 thorough), first draw complete, second/third draws below selected undecided nodes; no modulo complete (bijection). 32..256-bit: every lattice modulus <= 2^16 plus consecutive ones as trees; no modulo and large lattice moduli on adversarial periodic sources with every single byte position (and, without modulo, every adjacent pair of positions) taking all values. The Cadence function through scripts in interpreter and VM for one-byte moduli, no modulo, max modulo and modulo 0. Oracle: value < M; mass(v) <= 1/M; where complete, 1/M - mass(v) <= undecided mass; modulo 0 is a user error. non-trivial = distinct (type, modulo, mode) case whose tree/block was judged",
+		Rule: "explicit enumeration of the draw tree of the real revertibleRandom (stdlib.RevertibleRandom called with a byte source that holds exactly the bytes of one tree node; a node that asks for n more bytes is expanded into its 256^n children), exact integer masses. 8-bit types: all 255 moduli and no modulo, complete to 2 bytes (3 thorough). 16-bit: lattice moduli + consecutive ones (thorough: all moduli <= 4096 and the lattice), first draw complete, second/third draws below selected undecided nodes; no modulo complete (bijection). 32..256-bit: every lattice modulus <= 2^16 plus consecutive ones as trees; no modulo and large lattice moduli on adversarial periodic sources with every single byte position (and, without modulo, every adjacent pair of positions) taking all values. The Cadence function through scripts in interpreter and VM for one-byte moduli, no modulo, max modulo and modulo 0. Oracle: value < M; mass(v) <= 1/M; where complete, 1/M - mass(v) <= undecided mass; modulo 0 is a user error. non-trivial = distinct (type, modulo, mode) case whose tree/block was judged",
 		Assumptions: []string{
 			"source bytes are independent and uniform (each byte value has weight 1/256) — the property's premise",
 			"for spaces larger than 2^16 only boundedness and mass(v) <= 1/M on the explored sources are decided (a bias of order 2^-100 is out of reach of any enumeration)",
